@@ -137,6 +137,18 @@ def check(an, rep, tier):
         rep.add('P-domain', 'core.core_tt_to_qtt', 'mode size %d %s'
                 % (n, 'rejected' if bad else 'accepted'), st3,
                 '' if st3 == 'ok' else 'mode size %d is %s' % (n, d3))
+        # the rejection is a property of the MODE size alone: it must not
+        # depend on the (even / odd) left rank
+        for r1c in (2, 4):
+            G = ARR((Poly.const(r1c), Poly.const(n), Poly.sym('r2')), 'f')
+            I = interp.Interp(prog, dict(o))
+            I.run_function(prog.func('core.core_tt_to_qtt'), {'G': G})
+            st3, d3 = dom3(I.raises, I.entry_returns, bad)
+            rep.add('P-domain', 'core.core_tt_to_qtt', 'mode size %d with '
+                    'left rank %d %s' % (n, r1c,
+                                         'rejected' if bad else 'accepted'),
+                    st3, '' if st3 == 'ok' else 'mode size %d (left rank %d) '
+                    'is %s' % (n, r1c, d3))
         I = interp.Interp(prog, dict(o))
         I.run_function(prog.func('grid.ind_tt_to_qtt'),
                        {'I': specs.build('I[m,d]', 'I', 3), 'n': INT(n)})
@@ -354,5 +366,5 @@ def check(an, rep, tier):
     rep.floor('S-layout', 3, 'merge layouts')
     rep.floor('S-ret', 10, 'conversion results')
     rep.floor('S-pair', 2, 'index map pairing (order and digit dims; the column blocks only when both maps are written per mode)')
-    rep.floor('P-domain', 8, 'power-of-two checks')
+    rep.floor('P-domain', 12, 'power-of-two checks')
     rep.floor('P-forward', 3, 'forwarded caps')
